@@ -96,6 +96,7 @@ def exec_session(R, texts, ops, target, want_fp=False):
     Election = R.droop.election.Election
     pool = {}
     log = []
+    batch = {}      # the shared options dict of a batch session
 
     def profile_for(op):
         idx = op['profile']
@@ -149,6 +150,17 @@ def exec_session(R, texts, ops, target, want_fp=False):
             E = Election(prof)              # options come from the file's [droop ...] line
         elif call == 'empty':
             E = Election(prof, {})
+        elif call == 'object':
+            # an embedding program that builds a fresh Options() per election and fills it with update()
+            ob = R.droop.options.Options()
+            for k_, v_ in op['options'].items():
+                ob.update(k_, v_)
+            E = Election(prof, ob)
+        elif call == 'batch':
+            # a batch script: ONE options dict object, same content, handed to every election of the session
+            if not batch:
+                batch.update(op['caller_options'])
+            E = Election(prof, batch)
         else:
             E = Election(prof, dict(op['options']))
         interrupted = False
@@ -409,6 +421,15 @@ def gen_session(seed, idx, extended=False):
                 {'rule': 'wigm', 'arithmetic': 'guarded', 'precision': 'abc'},
                 {'rule': 'wigm', 'integer_quota': 'maybe'},
             ])
+            if rnd.random() < 0.5:
+                # a refused construction that got half-way through initialising the TARGET's value class with the
+                # target's own precision (and guard) before a bad display/guard value stopped it
+                bad = same_class_options(rnd, topts)
+                for key in ('precision', 'guard'):
+                    if key in topts:
+                        bad[key] = topts[key]
+                bad[rnd.choice(('display', 'guard') if bad.get('arithmetic') == 'guarded' else ('display',))] = \
+                    rnd.choice(('all', 'x', '-1', '1.5'))
             if rnd.random() < 0.25:
                 ops.append(dict(op='count-fails', profile=pidx, share=share,
                                 options={'rule': rnd.choice(('meek', 'warren')), 'arithmetic': 'integer'},
@@ -451,6 +472,32 @@ def gen_session(seed, idx, extended=False):
             tags.add('predecessor_via_Droop_main')
     if target.get('via') == 'main':
         tags.add('target_via_Droop_main')
+    if not extended and rnd.random() < 0.05:
+        # batch session: the caller's ONE options dict (rule, display, ...) is passed to every election; what differs
+        # between the elections (precision, guard, omega) comes from each file's [droop ...] line
+        caller = {k: v for k, v in topts.items() if k in ('rule', 'display', 'arithmetic', 'defeat_batch')}
+        tags = set(tags) | {'batch_shared_options_dict'}
+        new_ops = []
+        for op in ops + [target]:
+            if op.get('op') not in ('count', 'interrupted'):
+                if op is not target:
+                    new_ops.append(op)
+                continue
+            own = {}
+            if _value_class_name(caller) != 'Rational':
+                own['precision'] = rnd.choice((1, 2, 3, 4, 6, 9, 12))
+                if _value_class_name(caller) == 'Guarded' and rnd.random() < 0.6:
+                    own['guard'] = rnd.choice((0, 1, 3, 6, 9))
+            e2 = dict(elections[op['profile']] if op['profile'] < len(elections) else elections[0])
+            e2['droop'] = gen.droop_tokens(own, rnd) or None
+            texts.append(gen.render_blt(e2, rnd))
+            op.update(profile=len(texts) - 1, share=False, call='batch', caller_options=dict(caller),
+                      options=dict(caller, **own))
+            op.pop('via', None)
+            if op is not target:
+                new_ops.append(op)
+        ops = new_ops
+        return dict(texts=texts, ops=ops, target=target, tags=sorted(tags))
     # some elections carry their options in the ballot file ([droop ...]) and are built as Election(profile) or
     # Election(profile, {}) -- the call shape of a program that leaves configuration to the file
     for op in ops + [target]:
@@ -461,6 +508,9 @@ def gen_session(seed, idx, extended=False):
             op['profile'] = len(texts) - 1
             op['share'] = False
             op['call'] = rnd.choice(('none', 'empty'))
+        elif op.get('op') in ('count', 'interrupted') and op.get('via') != 'main' and rnd.random() < 0.08:
+            op['call'] = 'object'
+            tags.add('options_object_call')
             tags.add('target_options_embedded_in_file' if op is target else 'predecessor_options_embedded_in_file')
     return dict(texts=texts, ops=ops, target=target, tags=sorted(tags))
 
@@ -526,7 +576,8 @@ GRID_TEXTS = [
 
 def _target_key(texts, target):
     return hashlib.sha1(repr((texts[target['profile']], sorted(target['options'].items()), target['share'],
-                              target['render'], target.get('via'), target.get('call'))).encode()).hexdigest()
+                              target['render'], target.get('via'), target.get('call'),
+                              sorted((target.get('caller_options') or {}).items()))).encode()).hexdigest()
 
 
 SESSION_WALL = 150.0       # seconds for the target alone (sessions take milliseconds, wide ones seconds)
@@ -713,10 +764,34 @@ def wide_sessions():
     return out
 
 
+def manyfile_sessions():
+    """dozens of DISTINCT ballot files go through Droop.main before one of them is counted again: caches in the
+    driver layer that only misbehave once they are full or start to evict"""
+    rnd = rng(0, 'hist-manyfiles', 0)
+    texts = []
+    for i in range(56):
+        e = gen.gen_election(rnd, rule='wigm', small=True)
+        e['title'] = 'file %d' % i
+        texts.append(gen.render_blt(e, plain=True))
+    out = []
+    for (tidx, cfg) in ((0, {'rule': 'wigm'}), (20, {'rule': 'meek-prf'}), (40, {'rule': 'scotland'})):
+        ops = [dict(op='count', profile=i, share=False, options={'rule': ('wigm', 'cfer', 'mpls')[i % 3]},
+                    render=['report'], via='main') for i in range(56)]
+        out.append(dict(texts=texts, ops=ops, tags=['many_distinct_files_through_driver'],
+                        target=dict(op='count', profile=tidx, share=False, options=cfg,
+                                    render=['report', 'dump', 'json'], via='main')))
+    return out
+
+
+def special_sessions():
+    "the fixed sessions of the wide and many-files arms"
+    return wide_sessions() + manyfile_sessions()
+
+
 def work_wide(R, j):
-    "wide arm: session j of wide_sessions()"
+    "wide / many-files arms: fixed session j of special_sessions()"
     acc = new_acc()
-    sess = wide_sessions()[j]
+    sess = special_sessions()[j]
     v, info = run_session(R, sess)
     _account(acc, sess, v, info, 'w%d' % j, False)
     return acc
